@@ -36,6 +36,26 @@ CHECKS = {
                      "ratios are compared with single-point runs; every sequence with its negation.",
                 note="Reference in mc/refs/hcm_nonlinear.py is trusted as the reading of the guideline procedure (index-based Clormann-Seeger memory rules).",
                 ref="3 C05"),
+    "C06": dict(cat="exploration", tech="exhaustive lattice enumeration (materials x K_p x tolerances x loads x container types) against bisection roots of the defining equations",
+                text="Every point of a lattice of FKM material estimates x K_p (incl. 1, 1.001, 10) x solver tolerances x loads from 0.002 to 4 R_m (both signs, 0) x "
+                     "both branches is solved by the real laws in every container type (float, numpy scalar, 0-d/1-d arrays, Series, shuffled Series, 150-point grid) "
+                     "and compared with the exact root found by bisection in plain math (distance <= 10 x requested tolerance), load/K_p <= |sigma| <= |load|, oddness, "
+                     "strict monotonicity, round trips through the backward functions and element-wise container agreement. Lattice only; every boundary included.",
+                note="Bisection reference in mc/refs/notch.py; tolerance factor 10 stated; solver RuntimeErrors counted, not judged (as the property says).",
+                ref="3 C06"),
+    "C07": dict(cat="exploration", tech="exhaustive enumeration of all class edges (and neighbouring floats) x bin counts x maxima x call styles of the Binned look-up",
+                text="For 2 laws x 2 parameter sets x 3-4 maxima x 5-9 bin counts, single and per-point tables: every stored class edge, the floats just below and above it, "
+                     "edge +- 1e-9 max, interior points, 0, the top edge and loads above it, both signs, both branches, scalar / Series / per-point Series calls. Oracle: exact "
+                     "row of the smallest stored edge >= |L| with the sign of L, table = wrapped law on the edge grid, per-point tables = single tables, guard raises, "
+                     "never below the exact law, monotone, within one class.",
+                note="The stored edge (k/n)*L_max is the reference edge; number_of_bins=1 fails at construction and is counted only.",
+                ref="3 C07"),
+    "C12": dict(cat="exploration", tech="exhaustive lattice enumeration of (amplitude, mean, diagram, R_goal, R_1 -> R_2 paths) against a closed-form Haigh reference; exhaustive small rainflow matrices",
+                text="All cycles of an (amplitude x mean) lattice hitting R = -inf, -1, 0, R12, R23, > 1 exactly x 4 Goodman and 4-16 five-segment diagrams x 12-18 targets: "
+                     "Goodman closed form, path independence over all (R_1, R_2), idempotence, fixed points, continuity at every segment border and monotonicity, agreement of "
+                     "function / collective / histogram interfaces, and cycle conservation of the matrix interface over all count vectors of small matrices and index layouts.",
+                note="Five-segment closed form is not given by the property: mismatches to the reference walk are counted, not judged. R_goal = 1, +inf not enumerated.",
+                ref="3 C12"),
     "C13": dict(cat="exploration", tech="exhaustive enumeration of small index layouts x operand kinds against a dict look-up reference; deep operand snapshot before/after",
                 text="All pairs of 9 index layouts (named, unnamed, two-level, swapped level order, partially shared) with 1-3 rows in all row orders x "
                      "{Series, DataFrame} object x {scalar, 0-d, list, ndarray, Series, DataFrame} parameter are broadcast by the real Broadcaster and compared "
@@ -43,6 +63,18 @@ CHECKS = {
                      "after; per-element Woehler curves x per-scenario loads are compared with scalar evaluation. Layouts outside the quantifier are counted, not judged.",
                 note="Unnamed-level sharing and rows of the smaller operand whose key is missing in the larger are outside the property and only counted.",
                 ref="3 C13"),
+    "C14": dict(cat="exploration", tech="exhaustive enumeration of small collectives x bin specifications and of count vectors x source/target binnings against a plain reference",
+                text="All collectives of 1-3 (thorough 4) rows over from/to in {-2,-1,0,1,3} in both descriptions, with optional cycles column and extra levels, x 13 bin "
+                     "specifications (counts, edges, interval indices, single bins, edges on values) x scalar and per-level scale/shift operands; all count vectors {0,1,5}^3 "
+                     "(2-D: ^4) x source/target binning pairs for rebin (conservation, identity, composition) and combine (grand total).",
+                note="A row of a collective counts as one cycle for histogramming (interpretation fixed in DESIGN); numpy's edge convention is the reference.",
+                ref="3 C14"),
+    "C16": dict(cat="exploration", tech="exhaustive lattice enumeration of parameters x stress/strain states for closed-form material laws against plain references",
+                text="Ramberg-Osgood over E x K x n (0.05..0.95) x stresses up to 2K and strains up to 1, scalar and array: inverse pairs, oddness, monotonicity, compliance vs "
+                     "central differences, Masing doubling, lower branch at the reversal; Hooke 1D/2D/3D over E x nu x all states in {-1,0,2}^k: identities and plane reductions; "
+                     "true stress/strain inverses.",
+                note="Lattice only; beyond |strain| <= 1 counted, not judged.",
+                ref="3 C16"),
     "C17": dict(cat="exploration", tech="exhaustive enumeration of the integer tensor lattice x the 24 cube rotations x scales against an independent Jacobi eigen-solver",
                 text="All 15 625 symmetric tensors with components in {-2..2} (thorough: also {-3..3}) x 24 exact cube rotations + rational rotations x exact and inexact "
                      "scales are evaluated by every equivalent-stress function (scalar, column, accessor) and compared with the definitions from eigenvalues of an "
